@@ -28,4 +28,6 @@ pub fn run(ctx: &Ctx) {
             Ok(v) => { ctx.eval(format!("chain={name},parity={}", odd as u8)); if Nat::from_be_bytes(&v) != want { ctx.violation(format!("{P}:v:chain={name}:wrong"), format!("v = {} but 35 + 2c + yParity = {}", Nat::from_be_bytes(&v).to_dec(), want.to_dec()), replay) } }
         }
     });
+    // a chain id that is supplied is the one that is bound, whatever else the document carries (a left-over v, type, ...)
+    crate::txcheck::foreign_members(ctx, P, "foreign-members-c11");
 }
